@@ -7,7 +7,7 @@ DEFAULT_WEIGHTS = {
     "put_new": 10, "put_same": 3, "put_reser": 2, "put_change": 6, "put_revert": 3, "put_invalid": 3,
     "put_cond": 3, "put_uidconflict": 2, "put_uidchange": 2, "post": 2, "delete": 5, "delete_missing": 1, "delete_cond_stale": 1,
     "mkcol_new": 1.2, "mkcol_existing": 1, "delete_col": 0.8, "proppatch": 2, "read": 4, "restart": 0.5,
-    "put_missing_col": 0.5, "put_nouid": 0.5, "put_moved": 0, "put_swap": 0, "put_reserved": 0.7, "locked_writes": 0, "control_dir": 0.5, "put_type_confusion": 0.6,
+    "put_missing_col": 0.5, "put_nouid": 0.5, "put_moved": 0, "put_swap": 0, "put_reserved": 0.7, "locked_writes": 0, "control_dir": 0.5, "put_type_confusion": 0.6, "git_branch_rename": 0,
 }
 
 # names for C01-class histories: URL-hostile but not URL-structural
@@ -249,6 +249,12 @@ class Driver:
         if not names:
             return None
         name = self.rng.choice(names)
+        stem = holder[:-4]
+        variant = "".join(c.swapcase() if c.isascii() else c for c in stem) + holder[-4:]
+        if variant != holder and self.rng.random() < 0.3:
+            # a name that differs from the holder's only in the case of its letters is another resource
+            name = variant
+            self.count("put_uidconflict_name_differs_in_case_only")
         body, uid, tok = self.body_for(name, uid)
         self.w.put(col.path, name, body, op="put_uidconflict", uid=uid, token=tok)
         return [col.path]
@@ -631,6 +637,36 @@ class Driver:
             w.report(col.path, X.addressbook_query(X.CARD_MATCH_ALL), op="report-query")
         else:
             return None
+        return [col.path]
+
+    def op_git_branch_rename(self):
+        """the administrator renames the branch of a tree-git collection with the git CLI while the server runs (HEAD follows);
+        the writes that come afterwards belong on the branch HEAD names"""
+        import subprocess
+        cols = [c for c in self.w.cols.values() if c.backend == "tree" and c.kind in ("calendar", "addressbook") and c.members]
+        if not cols:
+            return None
+        col = self.rng.choice(sorted(cols, key=lambda c: c.path))
+        fsp = self.w.fs_path(col.path)
+        self.w.full_audit([col.path])
+        r = subprocess.run(["git", "-C", fsp, "symbolic-ref", "--short", "HEAD"], capture_output=True, text=True, env=self.w._git_env())
+        if r.returncode != 0:
+            return None
+        cur = r.stdout.strip()
+        self.nrenames = getattr(self, "nrenames", 0) + 1
+        r = subprocess.run(["git", "-C", fsp, "branch", "-m", cur, "trunk%d" % self.nrenames], capture_output=True, text=True, env=self.w._git_env())
+        if r.returncode != 0:
+            return None
+        # ... and the next request is a write to that collection
+        names = [n for n in self.names_for(col.path) if W.ext_of(n) in (".ics", ".vcf")]
+        if names:
+            name = self.rng.choice(names)
+            free = [u for u in self.uids if all(m.uid != u for m in col.members.values())]
+            holder = col.members.get(name)
+            uid = holder.uid if holder is not None and holder.uid else (free[0] if free else None)
+            if uid is not None:
+                body, uid, tok = self.body_for(name, uid)
+                self.w.put(col.path, name, body, op="put_after_branch_rename", uid=uid, token=tok)
         return [col.path]
 
     def op_restart(self):
